@@ -177,7 +177,7 @@ func run(r *core.Run) int {
 	}
 	r.Set("alphabet_fetcher", sims.CRLBehaviours)
 	r.Set("alphabet_http_extra", sims.CRLHTTPOnly)
-	core.Parallel(len(jobs), func(i int) {
+	r.Parallel(len(jobs), func(i int) {
 		j := jobs[i]
 		sc := scenario(j.c, j.behs)
 		out := sc.Run()
